@@ -12,7 +12,7 @@ pub const TBL_NAMES: [&str; 13] = [
     "pawndbl.b", "pawncap.w", "pawncap.b", "between",
 ];
 
-pub const PRIM_KINDS: [&str; 8] = ["square", "file", "rank", "color", "piece", "cr", "bbfr", "offsets"];
+pub const PRIM_KINDS: [&str; 9] = ["square", "file", "rank", "color", "piece", "cr", "bbfr", "offsets", "misc"];
 
 pub fn obs_tbl(name: &str) -> String {
     let v = g(|| {
@@ -179,11 +179,26 @@ pub fn obs_prim(kind: &str) -> String {
                 for b in 0..4 {
                     let (x, y) =
                         (CastlingRights::from_index(a).unwrap(), CastlingRights::from_index(b).unwrap());
-                    recs.push(format!("A{}{}={}", a, b, (x + y).to_index()));
-                    recs.push(format!("S{}{}={}", a, b, (x - y).to_index()));
+                    // `+=` / `-=` must agree with `+` / `-`
+                    let (mut xa, mut xs) = (x, x);
+                    xa += y;
+                    xs -= y;
+                    recs.push(format!("A{}{}={}{}", a, b, (x + y).to_index(), if xa == x + y { "" } else { "!" }));
+                    recs.push(format!("S{}{}={}{}", a, b, (x - y).to_index(), if xs == x - y { "" } else { "!" }));
                 }
             }
             recs.join(";")
+        }
+        "misc" => {
+            // constants of the public API outside the other kinds: the default builder (= standard start), its cell
+            // array, the colour and piece-type iterators, the default game's FEN
+            let bbdef = format!("{}", BoardBuilder::default()).replace(' ', "_");
+            let cells = BoardBuilder::default().get_pieces();
+            let gp: String = (0..64).map(|i| cells[i].map_or('.', piece_char)).collect();
+            let ci: String = Color::iter().map(color_char).collect();
+            let pi: String = PieceType::iter().map(type_char).collect();
+            let gdef = Game::default().as_fen().replace(' ', "_");
+            format!("{bbdef}:{gp}:{ci}:{pi}:{gdef}")
         }
         "bbfr" => {
             let mut v = Vec::new();
@@ -449,7 +464,16 @@ pub fn gobs(gm: &Game) -> String {
             v.join(",")
         }
     });
-    let fen = g(|| gm.as_fen().replace(' ', "_"));
+    let fen = g(|| {
+        let p = gm.get_position();
+        // the Game-level getters duplicate the position's: a disagreement spoils the value
+        let same = gm.get_side_to_move() == p.get_side_to_move()
+            && gm.get_move_number() == p.get_move_number()
+            && gm.get_moves_since_capture_or_pawn_move() == p.get_moves_since_capture_or_pawn_move()
+            && gm.as_fen() == p.as_fen()
+            && gm.get_legal_moves().len() == p.get_legal_moves().len();
+        format!("{}{}", gm.as_fen().replace(' ', "_"), if same { "" } else { "!getters" })
+    });
     let hash = g(|| hx(gm.get_position().get_hash()));
     format!("status={status} tag={tag} cnt={cnt} hlen={hlen} cnts={cnts} fen={fen} hash={hash}")
 }
